@@ -490,6 +490,8 @@ void Parser::print_header_info(const PatchHeaderInfo& header_info, std::ostream&
     }
 }
 
+static bool parse_context_range(LineNumber& start_line, LineNumber& end_line, const std::string& context_string);
+
 bool Parser::parse_patch_header(Patch& patch, PatchHeaderInfo& header_info, int strip)
 {
     header_info.patch_start = m_file.tellg();
@@ -613,6 +615,13 @@ bool Parser::parse_patch_header(Patch& patch, PatchHeaderInfo& header_info, int 
         if (patch.format == Format::Unknown || patch.format == Format::Context) {
             if (last_line_looks_like == Format::Context && starts_with(line, "*** ")) {
                 patch.format = Format::Context;
+
+                // This should be the range of the old file for the first hunk. Remember where it starts so
+                // that (just like for the other formats) we can spot a file which is being added below.
+                LineNumber old_start_line = -1;
+                LineNumber old_end_line = -1;
+                if (ends_with(line, " ****") && parse_context_range(old_start_line, old_end_line, line.substr(4, line.size() - 9)))
+                    hunk.old_file_range.start_line = old_start_line;
                 break;
             }
 
